@@ -128,6 +128,7 @@ structure Flags where
   noLeadingDataFMP4 : Bool
   skipsEmptySegments : Bool        -- repair of F15 …
   skipsEmptyLeadingToo : Bool      -- … also on the leading stream (false: renditions only)
+  skipNeedsFragment : Bool         -- … and only a body with at least one fragment (`len(parts) != 0 &&`)
   leadingEndNeedsOrigin : Bool     -- a leading fMP4 stream that ends without track processors returns an error
   skipsUnknownPartTracks : Bool
   chanPerSegment : Bool
@@ -171,6 +172,7 @@ def genFlags : Flags where
   noLeadingDataFMP4 := fmp4GuardNoLeadingData
   skipsEmptySegments := fmp4SkipsEmptySegments
   skipsEmptyLeadingToo := fmp4SkipsEmptyLeadingToo
+  skipNeedsFragment := fmp4SkipNeedsFragment
   leadingEndNeedsOrigin := fmp4LeadingEndNeedsOrigin
   skipsUnknownPartTracks := fmp4SkipsUnknownPartTracks
   chanPerSegment := fmp4CompletionChanPerSegment
@@ -471,7 +473,8 @@ def fmp4ProcessSegment (F : Flags) (elapsed : Int) (s : FStream) (c : ClientSt) 
     match findFirstPT parts s.leadingTrackID with
     | none =>
       -- `if [!p.isLeading &&] partsAreEmpty(parts) { return nil }`: nothing is touched, not even the lazily created processors
-      if (F.skipsEmptySegments && (F.skipsEmptyLeadingToo || !s.isLeading) && partsEmpty parts) = true then
+      if (F.skipsEmptySegments && (F.skipsEmptyLeadingToo || !s.isLeading) && (!F.skipNeedsFragment || !parts.isEmpty) &&
+          partsEmpty parts) = true then
         .ok (s, c, [.skippedSegment])
       else if F.noLeadingDataFMP4 then .error .noLeadingData else .panic .nilDeref
     | some lpt => do
